@@ -23,7 +23,7 @@ def run(ctx):
     # ---- Leg D
     ctx.design("Input/ConnLife.tla", "ConnLife.cfg", workers=4, timeout=300, note="property layer: TypeOK, AtMostOnce, Contained")
     for proto in ("Http", "Scgi", "Fcgi"):
-        ctx.design("Input/ConnLifeImpl.tla", "ConnLifeImpl%s_%s.cfg" % (proto, "quick" if q else "full"), workers=6, timeout=1500, heap="12g",
+        ctx.design("Input/ConnLifeImpl.tla", "ConnLifeImpl%s_%s.cfg" % (proto, "quick" if q else "full"), workers=(6 if q else 16), timeout=1500, heap="12g",
                    note="mechanism of the %s error paths as designed: AtMostOnce, Contained, Answered, refinement of ConnLife" % proto)
     if True:
         # self-test: the model of the code *as it was found* (F1-F3) must violate the invariants
@@ -32,11 +32,25 @@ def run(ctx):
             ctx.design("Input/ConnLifeImpl.tla", cfg, workers=8, timeout=600, expect_violation=inv, count=False,
                        note="self-test: defect model must violate " + inv)
     # ---- Leg B
-    flavours = ["hooks"] if q else ["hooks", "asan"]
+    flavours = ["hooks"]
+    if not q:
+        # observability aid only: memory errors on the explored inputs become Died events
+        import subprocess
+        b = subprocess.run([os.path.join(os.path.dirname(os.path.dirname(os.path.abspath(__file__))), "bin", "build.sh"), "asan"],
+                           stdout=subprocess.PIPE, stderr=subprocess.PIPE, text=True)
+        if b.returncode == 0:
+            flavours.append("asan")
+        else:
+            ctx.extra["asan"] = "sanitizer build not available: " + b.stderr[-200:]
     seen = {}
     hooks_any = False
     for fl in flavours:
         exe = ctx.harness(inputlib.HARNESS[0], inputlib.HARNESS[1], flavour=fl)
+        if fl == "asan":
+            rc, out, err = ctx.run_harness(exe, ["smoke"], timeout=300)
+            if rc != 0:
+                ctx.extra["asan"] = "sanitizer build does not pass the smoke run (rc=%s): %s" % (rc, (err or "")[-300:])
+                continue
         protos = ("http", "scgi", "fcgi")
         traces = {p: os.path.join(ctx.work, "c02-%s-%s.ndjson" % (fl, p)) for p in protos}
         info = {}
